@@ -72,11 +72,17 @@ def run_part(run, fails, stats):
                 if k <= 7:
                     s = rng.pick(sessions)
                     cid = str(rng.below(max(1, len(s[2]) + 1)))
+                    if rng.chance(1, 4):
+                        # ids the server never issued that a lenient look-up could still resolve (issued ids are "0", "1", …)
+                        i0 = rng.below(max(1, len(s[2])))
+                        cid = rng.pick(["+%d", "0%d", "00%d", " %d", "%d ", "%d.0", "-%d", "0x%d", "%d\n"]) % i0 \
+                            if rng.chance(5, 6) else rng.pick(["abc", "", "１", "18446744073709551616"])
                     r.confirm(s[0], cid, now)
                     after = r.srv.dump()
                     stats["confirmations"] += 1
                     b, a = counts(before), counts(after)
-                    valid = (not s[3]) and int(cid) < len(s[2])
+                    canonical = cid.isdigit() and cid.isascii() and (cid == "0" or not cid.startswith("0")) and len(cid) < 9
+                    valid = (not s[3]) and canonical and int(cid) < len(s[2])
                     s[3] = True
                     changed = {key for key in set(a) | set(b) if a.get(key, (0, 0))[0] != b.get(key, (0, 0))[0]}
                     # allowed changes: +1 on exactly one key of the session's context, and drops of stale entries
@@ -116,6 +122,23 @@ def run_part(run, fails, stats):
                         fails.append(("unknown-session-changed-counts", {"kind": "unknown-session-changed-counts"},
                                       {"before": before["frequencies"], "after": after["frequencies"]}))
                 r.dump()
+            # directed: a fresh session confirmed with an id the server never issued (issued ids are exactly "0", "1", …)
+            for fmt in ["+%d", "0%d", "00%d", " %d", "%d ", "%d.0", "-%d", "0x%d", "１", "abc", ""]:
+                res = r.conv(rng.pick(ctxs), rng.pick(inputs))
+                if res[0] != "ok" or not res[1]["candidates"]:
+                    continue
+                i0 = rng.below(len(res[1]["candidates"]))
+                cid = fmt % i0 if "%d" in fmt else fmt
+                before = r.srv.dump()
+                now += 1
+                r.confirm(len(r.sids) - 1, cid, now)
+                after = r.srv.dump()
+                stats["stale_or_unknown"] += 1
+                if before and after and counts(before) != counts(after):
+                    fails.append(("unknown-candidate-changed-counts", {"kind": "unknown-candidate-changed-counts"},
+                                  {"candidate_id": cid, "issued_ids": [c["id"] for c in res[1]["candidates"]],
+                                   "before": before["frequencies"], "after": after["frequencies"]}))
+            r.dump()
         finally:
             r.stop()
     dis = S.compare_with_model(run, runners)
